@@ -20,5 +20,5 @@ package legacy
 //@   modifies nothing
 //@ extend func (*Router).FindRoute
 //@   ensures @C09 [error-means-no-route] result.2 != nil ==> result.0 == nil && result.1 == nil
-//@   option safety-tags C10
+//@   option safety-tags none
 //@   tag C09
